@@ -107,7 +107,7 @@ class VersionedDataHandler:
         # so you can think of this df as a dataframe of versioned results for one particular county
         def compute_estimated_margin(df):
             # Convert columns to NumPy arrays for faster computation
-            results_turnout = df["results_turnout"].values
+            results_turnout = df["results_turnout"].values.astype(float)
             percent_expected_vote = df["percent_expected_vote"].values
             results_dem = df["results_dem"].values
             results_gop = df["results_gop"].values
